@@ -233,6 +233,22 @@ def check_one(chk: core.Check, name, r, lines_out, pending):
             chk.fail(f'C10/table-cell/{cat}', f'row {bad[0]} of "{cat}" differs ({bad[1]}): client {bad[2]} vs printed {bad[3]}', {**rep, 'header': prof[0]})
         else:
             chk.tag(f'table/equal/{cat.split()[0]}', len(data))
+        if cat == 'REVENUE & CASHFLOW PROFILE':
+            # the units the client attaches to the columns must be the units the report prints over them (the `Start (…)(…)` line of the table)
+            ti = next((k for k, ln in enumerate(lines) if title in ln), None)
+            urow = next((ln for ln in lines[ti + 1:ti + 8] if ln.strip().startswith('Start')), None) if ti is not None else None
+            if urow is not None:
+                printed = re.findall(r'\(([^()]+)\)', urow)
+                hdr_units = [(h, (re.findall(r'\(([^()]+)\)\s*$', h) or [None])[0]) for h in prof[0][1:]]
+                if len(printed) == len(hdr_units):
+                    directed = 'directive' in name
+                    for (h, hu), pu in zip(hdr_units, printed):
+                        chk.tag('table/header-unit/' + ('same' if hu == pu else 'differs'))
+                        if hu != pu:
+                            chk.fail('C10/table-header-unit/' + ('under-directive/' if directed else '') + h,
+                                     f'the report prints the column "{h.rsplit("(", 1)[0].strip()}" in {pu}, the client labels it {hu}', {**rep, 'printed_units_row': urow.strip(), 'client_header': prof[0]})
+                else:
+                    chk.tag('table/header-unit/row-not-recognised')
     # ---- CSV ----------------------------------------------------------------------------------------------------------------------------------
     got = list(csv.reader(io.StringIO(r['csv'])))
     if not got or got[0] != ['Category', 'Field', 'Year', 'Value', 'Units']:
@@ -427,6 +443,7 @@ def extra_cases(chk: core.Check):
     ref_ = geo.base_params(2, 1, 1, L=6, n=1)
     xdir = dict(geo.base_params(3, 1, 1, L=9, n=1))
     xdir.update({'Units:Cumulative Revenue from Project': 'KUSD', 'Units:Annual Revenue from Project': 'KUSD/yr'})
+    out.append(('currency-directive', xdir))
     out.append(('history/reference', ref_))
     out.append(('history/after-unit-directive', ('seq2', xdir, ref_)))
     bigrev = geo.base_params(2, 1, 1, L=30, n=1)
